@@ -147,3 +147,42 @@ CLAIMED['C08'] = dict(
           'recorded). Termination and "linenum within the input" are argued, not decided. One reasoned suppression (assert '
           'newline, discharged by C15-R2). Known findings: two DOM-load escapes (TypeError).'),
     technique='taint-driven exception-escape analysis with handler subtraction (sink table) over path-sensitive abstract interpretation')
+
+CLAIMED['C01'] = dict(
+    category='other',
+    text=('NOT the value equality of the round trip. The inverse-pairing skeleton, each rule a necessary condition: writer '
+          'framing def-use (length = len(X), X the bytes written next); reader framing (one read(n), n the unmodified length '
+          'option); per content kind the transformation options emitted by the writer are consumed by the reader; order '
+          '(encode, append newline, indent the lines of split_lines on that newline / strip per such line before decoding, '
+          'nothing trimmed); json.dumps/json.loads pairing; one record per header; encoding-scope agreement of both sides '
+          'with one oracle over all histories (K1); first-line detection of line endings.'),
+    note=('Everything value-level is undecided: content that looks like headers, NUL bytes, exotic codecs, equality of '
+          'decoded text. A defect inside split_lines itself is not seen (C16 not applicable).'),
+    technique='def-use / typestate rules over abstract paths of writer and reader + exhaustive scope-stack exploration')
+CLAIMED['C03'] = dict(
+    category='other',
+    text=('NOT value-level agreement with the specification. Decided per section id on abstract reader paths: the rejection '
+          'catalogue (six spec violations: guard present, accepted value set equals the specification\'s, failure raises '
+          'DiffXParseError); the per-kind interpretation table (options consumed, bytes vs text, diffs never inherit, indent '
+          'only for preambles); indentation stripped per line of the newline split before decoding, nothing trimmed; '
+          'first-line detection of line endings; nearest-declared-encoding scopes over all histories (K1); blank-line '
+          'skipping and one record per header.'),
+    note='Equality of yielded content/options with an independent reading of the specification on concrete files is undecided.',
+    technique='guard/value-set extraction by abstract interpretation + table comparison with folded option sets')
+CLAIMED['C07'] = dict(
+    category='other',
+    text=('Sanitiser-before-sink: on every path yielding a content section, read(n) gets the unmodified length option proven '
+          'int with lower and upper bound; exactly one read per section, no other stream operation, no delimiter scanning; '
+          'check-after-read (known finding: absent); read-ahead helper rules (EOF only on empty read, non-EOF result ends '
+          'with the delimiter, accounting identity) instantiated from C17.'),
+    note=('The prefix property for every cut position is not decided as such; these are its necessary conditions. Known '
+          'finding: no short-read check (cannot be repaired without contradicting a pinned test).'),
+    technique='taint/fact dataflow (sanitiser-before-sink) + stream-operation query + linear-form accounting')
+CLAIMED['C12'] = dict(
+    category='other',
+    text=('Non-interference of option pairs on abstract reader paths: every parsed pair is stored on every non-raising path '
+          'and the key is compared with no constant; the options mapping is otherwise only read by constant lookups of the '
+          'six known options; the option-list language is closed under ", "-concatenation; values stored verbatim with '
+          'integer conversion covering -?[0-9]+.'),
+    note='Implied, not executed: equality of the records with and without the extra options.',
+    technique='information-flow (non-interference) over abstract paths + regular-language closure check')
